@@ -558,7 +558,7 @@ def writeOpsInPlace (bytes : Bytes) : List FsOp :=
   [.createTrunc .main, .write .main bytes, .close .main]
 
 
-/-! ## `RetainManager::save_snapshot`: change detection with `PartialEq` -/
+/-! ## `RetainManager::save_snapshot`: change detection (`PartialEq` and the encoded image) -/
 
 /-- IEEE-754 `==` on `f32` bit patterns (what the derived `PartialEq` of `Value::Real` uses):
 NaN is unequal to everything, `+0.0 == -0.0`. -/
@@ -615,27 +615,40 @@ structure Mgr where
   disk : Disk
   deriving Repr, DecidableEq
 
-/-- `self.last_snapshot.as_ref() == Some(&snapshot)`. -/
+/-- `same_retain_image(last, new)`: `last == new && encode_snapshot(last).ok() == encode_snapshot(new).ok()`
+(`PartialEq` alone identifies `+0.0` and `-0.0`; the images do not). -/
+def sameRetainImage (last new : Snapshot) : Bool :=
+  snapshotEq last new && (encodeSnapshot last).toOption == (encodeSnapshot new).toOption
+
+/-- `self.last_snapshot.as_ref().is_some_and(|last| same_retain_image(last, &snapshot))`. -/
 def Mgr.unchanged (m : Mgr) (s : Snapshot) : Bool :=
   match m.last with
-  | some l => snapshotEq l s
+  | some l => sameRetainImage l s
   | none => false
 
-/-- `RetainManager::save_snapshot(snapshot, now)` with a `FileRetainStore` (a completed save; the
-`dirty`/`last_save` bookkeeping does not influence the file). -/
-def Mgr.save (m : Mgr) (s : Snapshot) : Mgr × Except Err Unit :=
-  if m.unchanged s then (m, .ok ())
+/-- The body of `save_snapshot` once the change detection has answered `unchanged`. -/
+def Mgr.saveIf (unchanged : Bool) (m : Mgr) (s : Snapshot) : Mgr × Except Err Unit :=
+  if unchanged then (m, .ok ())
   else
     match encodeSnapshot s with
     | .error e => (m, .error e)
     | .ok bytes =>
       ({ last := some s, disk := runOps m.disk (writeOps bytes) (writeOps bytes).length }, .ok ())
 
-/-- Guard of the partial theorem: the change detection does not mistake `s` for a remembered
-snapshot that differs from it (it can: `PartialEq` identifies `+0.0` and `-0.0`). -/
-def Mgr.saveVisible (m : Mgr) (s : Snapshot) : Bool :=
+/-- `RetainManager::save_snapshot(snapshot, now)` with a `FileRetainStore` (a completed save; the
+`dirty`/`last_save` bookkeeping does not influence the file). -/
+def Mgr.save (m : Mgr) (s : Snapshot) : Mgr × Except Err Unit :=
+  Mgr.saveIf (m.unchanged s) m s
+
+/-- The change detection before the repair of C10-negzero-not-saved
+(`self.last_snapshot.as_ref() == Some(&snapshot)`); kept only for the regression counterexample. -/
+def Mgr.unchangedPartialEq (m : Mgr) (s : Snapshot) : Bool :=
   match m.last with
-  | none => true
-  | some l => !snapshotEq l s || decide (l = s)
+  | some l => snapshotEq l s
+  | none => false
+
+/-- `save_snapshot` before the repair; kept only for the regression counterexample. -/
+def Mgr.savePartialEq (m : Mgr) (s : Snapshot) : Mgr × Except Err Unit :=
+  Mgr.saveIf (m.unchangedPartialEq s) m s
 
 end TrustVerif.C10
